@@ -63,7 +63,9 @@ def _evaluate_factory(spec):
         if res.sim.unsupported:
             raise driver.HarnessError('HARNESS-UNSUPPORTED: %s'
                                       % res.sim.unsupported)
-        sigs = {v[1] for v in spec.oracle(scn, res)}
+        sigs = {}
+        for _cls, sig, detail in spec.oracle(scn, res):
+            sigs.setdefault(sig, detail)
         return sigs, list(res.sim.preempts), res.sim.digest()
     return evaluate
 
@@ -183,9 +185,12 @@ def minimise_record(spec, rec, budget_s):
         scn, pre = rec['scenario'], rec['preempts']
         stats['note'] = 'minimisation could not re-establish the violation; '\
             'original execution stored'
-    _sigs, pre2, digest = evaluate(scn, policy.Preempt(pre))
-    return make_replay_doc(spec, rec, scn, [list(p) for p in pre2], digest,
-                           stats)
+    sigs, pre2, digest = evaluate(scn, policy.Preempt(pre))
+    doc = make_replay_doc(spec, rec, scn, [list(p) for p in pre2], digest,
+                          stats)
+    if rec['signature'] in sigs:
+        doc['detail'] = sigs[rec['signature']]
+    return doc
 
 
 def do_replay(spec, path):
